@@ -20,8 +20,44 @@ PROPS["C01"] = {
     "crate": "engine",
     "modules": [
         {"mod": "verif_kani_c01_ops", "host": "engine/src/ast/field_expr.rs", "file": "engine/c01_ops.rs"},
+        {"mod": "verif_kani_c07", "host": "engine/src/ast/logical_expr.rs", "file": "engine/c07_tokens.rs"},
+        {"mod": "verif_kani_cmp", "host": "engine/src/scheme.rs", "file": "engine/cmp_arms.rs"},
+        {"mod": "verif_kani_parse", "host": "engine/src/scheme.rs", "file": "engine/parse_logic.rs"},
+        {"mod": "verif_kani_exec", "host": "engine/src/scheme.rs", "file": "engine/exec_kernels.rs"},
     ],
     "harnesses": [
+        {"name": "c01_absent_value_default", "mod": "verif_kani_exec", "big": True, "tier": "thorough", "core": False, "timeout": 3000, "mem_gb": 40, "rss_gb": 30,
+         "encodes": ["IndexExpr::compile_with", "IndexExpr::compile_one_with (closure)", "ExecutionContext::new", "set_field_value", "get_field_value_unchecked", "CompiledOneExpr::execute"],
+         "symbolic": "field present/absent, value i64, default bool, comparator answer bool", "bound": "one optional Int field, unwind 5", "oracle": "absent => default and comparator not called; present => comparator's answer on that value", "min_covers": 3,
+         "stubs": ["comparator: harness probe implementing Compare"]},
+        {"name": "c01_cmp_int", "mod": "verif_kani_cmp", "big": True, "timeout": 1200, "mem_gb": 24, "rss_gb": 6,
+         "encodes": ["ComparisonExpr::compile_with_compiler (real match on the operator, comparator construction, nil default) with IndexExpr::compile_with stubbed by the harness continuation"],
+         "symbolic": "lhs i64, literal i64, operator (6), nil-not-equal setting", "bound": "loop-free", "oracle": "operator's mathematical meaning on i64; absent lhs: false except != = setting", "min_covers": 4,
+         "stubs": ["IndexExpr::compile_with -> harness continuation applying the built comparator to a symbolic value", "rand::rngs::thread::rng -> unreachable"]},
+        {"name": "c01_cmp_bitwise_and", "mod": "verif_kani_cmp", "big": True, "timeout": 1200, "mem_gb": 24, "rss_gb": 6,
+         "encodes": ["ComparisonExpr::compile_with_compiler (real match on the operator, comparator construction, nil default) with IndexExpr::compile_with stubbed by the harness continuation"],
+         "symbolic": "lhs i64, literal i64", "bound": "loop-free", "oracle": "value & rhs != 0; absent: false", "min_covers": 2,
+         "stubs": ["IndexExpr::compile_with -> harness continuation applying the built comparator to a symbolic value", "rand::rngs::thread::rng -> unreachable"]},
+        {"name": "c01_cmp_is_true", "mod": "verif_kani_cmp", "big": True, "timeout": 1200, "mem_gb": 24, "rss_gb": 6,
+         "encodes": ["ComparisonExpr::compile_with_compiler (real match on the operator, comparator construction, nil default) with IndexExpr::compile_with stubbed by the harness continuation"],
+         "symbolic": "bool value", "bound": "loop-free", "oracle": "the field's value; absent: false", "min_covers": 2,
+         "stubs": ["IndexExpr::compile_with -> harness continuation applying the built comparator to a symbolic value", "rand::rngs::thread::rng -> unreachable"]},
+        {"name": "c01_cmp_ip", "mod": "verif_kani_cmp", "big": True, "timeout": 1200, "mem_gb": 24, "rss_gb": 6,
+         "encodes": ["ComparisonExpr::compile_with_compiler (real match on the operator, comparator construction, nil default) with IndexExpr::compile_with stubbed by the harness continuation"],
+         "symbolic": "two addresses (family + u128), operator, setting", "bound": "loop-free", "oracle": "per-family numeric order; mixed: only != holds; absent: != = setting", "min_covers": 4,
+         "stubs": ["IndexExpr::compile_with -> harness continuation applying the built comparator to a symbolic value", "rand::rngs::thread::rng -> unreachable"]},
+        {"name": "c01_cmp_bytes_r0", "mod": "verif_kani_cmp", "big": True, "timeout": 1200, "mem_gb": 24, "rss_gb": 6,
+         "encodes": ["ComparisonExpr::compile_with_compiler (real match on the operator, comparator construction, nil default) with IndexExpr::compile_with stubbed by the harness continuation"],
+         "symbolic": "lhs <= 3 arbitrary bytes vs empty literal, operator, setting", "bound": "lhs <= 3, unwind 6", "oracle": "lexicographic byte order", "min_covers": 4,
+         "stubs": ["IndexExpr::compile_with -> harness continuation applying the built comparator to a symbolic value", "rand::rngs::thread::rng -> unreachable"]},
+        {"name": "c01_cmp_bytes_r1", "mod": "verif_kani_cmp", "big": True, "timeout": 1200, "mem_gb": 24, "rss_gb": 6,
+         "encodes": ["ComparisonExpr::compile_with_compiler (real match on the operator, comparator construction, nil default) with IndexExpr::compile_with stubbed by the harness continuation"],
+         "symbolic": "lhs <= 3 bytes vs 1-byte literal", "bound": "lhs <= 3, unwind 6", "oracle": "lexicographic byte order", "min_covers": 4,
+         "stubs": ["IndexExpr::compile_with -> harness continuation applying the built comparator to a symbolic value", "rand::rngs::thread::rng -> unreachable"]},
+        {"name": "c01_cmp_bytes_r2", "mod": "verif_kani_cmp", "big": True, "timeout": 1200, "mem_gb": 24, "rss_gb": 6,
+         "encodes": ["ComparisonExpr::compile_with_compiler (real match on the operator, comparator construction, nil default) with IndexExpr::compile_with stubbed by the harness continuation"],
+         "symbolic": "lhs <= 3 bytes vs 2-byte literal", "bound": "lhs <= 3, unwind 6", "oracle": "lexicographic byte order", "min_covers": 4,
+         "stubs": ["IndexExpr::compile_with -> harness continuation applying the built comparator to a symbolic value", "rand::rngs::thread::rng -> unreachable"]},
         {"name": "c01_ordering_table", "mod": "verif_kani_c01_ops", "timeout": 300, "mem_gb": 6,
          "encodes": ["ast::field_expr::OrderingOp::matches", "ast::field_expr::OrderingOp::matches_opt"],
          "symbolic": "two i64 (full width), operator (6)",
@@ -36,6 +72,10 @@ PROPS["C01"] = {
          "encodes": ["OrderingOp discriminants", "LESS/GREATER/EQUAL flags"],
          "symbolic": "none (constant table)", "bound": "loop-free", "oracle": "documented mask per operator",
          "min_covers": 1},
+        {"name": "c01_precedence_order", "mod": "verif_kani_c07", "timeout": 300, "mem_gb": 6,
+         "encodes": ["LogicalOp: PartialOrd/Ord (derived)", "Option<LogicalOp> ordering used by lex_more_with_precedence"],
+         "symbolic": "two operators (3x3)", "bound": "loop-free", "oracle": "or < xor < and; None below every operator",
+         "min_covers": 1},
     ],
     "not_covered": "per-type closures generated by gen_ordering!, nil default wiring, not/and/or/xor composition, "
                    "parser precedence: AST construction/compilation is outside what CBMC decides here (DESIGN 3.2)",
@@ -45,8 +85,23 @@ PROPS["C09"] = {
     "crate": "engine",
     "modules": [
         {"mod": "verif_kani_c09", "host": "engine/src/range_set.rs", "file": "engine/c09_rangeset.rs"},
+        {"mod": "verif_kani_c09_ip", "host": "engine/src/rhs_types/ip.rs", "file": "engine/c09_ip.rs"},
+        {"mod": "verif_kani_cmp", "host": "engine/src/scheme.rs", "file": "engine/cmp_arms.rs"},
     ],
     "harnesses": [
+        {"name": "c09_oneof_int", "mod": "verif_kani_cmp", "big": True, "timeout": 1200, "mem_gb": 24, "rss_gb": 6,
+         "encodes": ["ComparisonExpr::compile_with_compiler (real match on the operator, comparator construction, nil default) with IndexExpr::compile_with stubbed by the harness continuation"],
+         "symbolic": "probe i64; list {a0..a1, b0, c0..c1} full i64", "bound": "3 items, unwind 7", "oracle": "some item equals or contains x; absent: false", "min_covers": 3,
+         "stubs": ["IndexExpr::compile_with -> harness continuation applying the built comparator to a symbolic value", "rand::rngs::thread::rng -> unreachable"]},
+        {"name": "c09_oneof_int_empty", "mod": "verif_kani_cmp", "big": True, "timeout": 1200, "mem_gb": 24, "rss_gb": 6,
+         "encodes": ["ComparisonExpr::compile_with_compiler (real match on the operator, comparator construction, nil default) with IndexExpr::compile_with stubbed by the harness continuation"],
+         "symbolic": "probe i64, empty list", "bound": "0 items", "oracle": "false", "min_covers": 1,
+         "stubs": ["IndexExpr::compile_with -> harness continuation applying the built comparator to a symbolic value", "rand::rngs::thread::rng -> unreachable"]},
+        {"name": "c09_oneof_ip", "mod": "verif_kani_cmp", "big": True, "timeout": 1800, "mem_gb": 24, "rss_gb": 8,
+         "encodes": ["ComparisonExpr::compile_with_compiler (real match on the operator, comparator construction, nil default) with IndexExpr::compile_with stubbed by the harness continuation"],
+         "symbolic": "probe (family + u128); list {v4 CIDR a/len, explicit v6 range, single v4 address}", "bound": "3 items, unwind 18", "oracle": "membership in an item of the same family only; absent: false", "min_covers": 5,
+         "stubs": ["IndexExpr::compile_with -> harness continuation applying the built comparator to a symbolic value", "rand::rngs::thread::rng -> unreachable"]},
+
         {"name": "c09_rangeset_i64_n3", "mod": "verif_kani_c09", "timeout": 600, "mem_gb": 8,
          "encodes": ["RangeSet::<i64>::from(Vec)", "RangeSet::contains", "slice::sort_unstable_by_key", "Vec::dedup_by", "slice::binary_search_by"],
          "symbolic": "3 ranges (start<=end) + probe, full i64", "bound": "3 ranges, unwind 6",
@@ -66,6 +121,18 @@ PROPS["C09"] = {
          "encodes": ["RangeSet::<Ipv6Addr>::from", "RangeSet::contains"],
          "symbolic": "2 IPv6 ranges + probe, full u128", "bound": "2 ranges, unwind 5",
          "oracle": "exists i: start_i <= x <= end_i", "min_covers": 5},
+        {"name": "c09_cidr_v4_bounds", "mod": "verif_kani_c09_ip", "timeout": 600, "mem_gb": 8,
+         "encodes": ["<ExplicitIpRange as From<IpRange>>::from", "From<IpCidr>", "From<Ipv4Cidr>", "cidr::Ipv4Cidr::new/first_address/last_address"],
+         "symbolic": "u32 address, prefix 0..=32, probe u32", "bound": "loop-free",
+         "oracle": "x in block iff x & mask == a; host bits set => not constructible", "min_covers": 3},
+        {"name": "c09_cidr_v6_bounds", "mod": "verif_kani_c09_ip", "timeout": 600, "mem_gb": 8,
+         "encodes": ["<ExplicitIpRange as From<IpRange>>::from", "From<Ipv6Cidr>", "cidr::Ipv6Cidr::new/first_address/last_address"],
+         "symbolic": "u128 address, prefix 0..=128, probe u128", "bound": "loop-free",
+         "oracle": "x in block iff x & mask == a", "min_covers": 3},
+        {"name": "c09_addr_and_explicit_items", "mod": "verif_kani_c09_ip", "timeout": 600, "mem_gb": 8,
+         "encodes": ["<IpRange as From<IpAddr>>::from", "<ExplicitIpRange as From<IpRange>>::from", "From<IpAddr> for ExplicitIpRange"],
+         "symbolic": "address (family + u128), explicit v4 range", "bound": "loop-free",
+         "oracle": "single address -> one-address range of its family; explicit range unchanged", "min_covers": 2},
         {"name": "c09_rangeset_i64_n4", "mod": "verif_kani_c09", "tier": "thorough", "core": False, "timeout": 2400, "mem_gb": 16,
          "encodes": ["RangeSet::<i64>::from(Vec)", "RangeSet::contains"],
          "symbolic": "4 ranges + probe, full i64", "bound": "4 ranges, unwind 7",
@@ -87,8 +154,14 @@ PROPS["C17"] = {
     "crate": "engine",
     "modules": [
         {"mod": "verif_kani_c17", "host": "engine/src/list_matcher.rs", "file": "engine/c17_lists.rs"},
+        {"mod": "verif_kani_cmp", "host": "engine/src/scheme.rs", "file": "engine/cmp_arms.rs"},
     ],
     "harnesses": [
+        {"name": "c17_inlist_delegation", "mod": "verif_kani_cmp", "big": True, "timeout": 1200, "mem_gb": 24, "rss_gb": 6,
+         "encodes": ["ComparisonExpr::compile_with_compiler (real match on the operator, comparator construction, nil default) with IndexExpr::compile_with stubbed by the harness continuation"],
+         "symbolic": "value i64, matcher answer bool; scheme with two lists (Ip, Int)", "bound": "unwind 5", "oracle": "answer = installed matcher's answer, asked once with the list's matcher, the name and the value; absent: false", "min_covers": 2,
+         "stubs": ["IndexExpr::compile_with -> harness continuation applying the built comparator to a symbolic value", "rand::rngs::thread::rng -> unreachable"]},
+
         {"name": "c17_builtin_lists", "mod": "verif_kani_c17", "timeout": 300, "mem_gb": 6,
          "encodes": ["AlwaysListMatcher::match_value", "NeverListMatcher::match_value"],
          "symbolic": "value: Int(i64) | Bool | Ip(v4 u32 | v6 u128) | Bytes(len<=2); name from {'', 'a', 'x.y_0'}",
@@ -106,6 +179,7 @@ PROPS["C15"] = {
     "crate": "engine",
     "modules": [
         {"mod": "verif_kani_c15", "host": "engine/src/types.rs", "file": "engine/c15_types.rs"},
+        {"mod": "verif_kani_c20k", "host": "ffi/src/lib.rs", "file": "ffi/c20_ffi_kernels.rs", "crate": "ffi"},
     ],
     "harnesses": [
         {"name": "c15_compound_roundtrip", "mod": "verif_kani_c15", "timeout": 900, "mem_gb": 8,
@@ -121,6 +195,18 @@ PROPS["C15"] = {
          "encodes": ["CompoundType::from_type", "Type: PartialEq", "CompoundType: PartialEq"],
          "symbolic": "two descriptions (<= 8 layers each, primitive)", "bound": "<= 8 layers, unwind 10",
          "oracle": "types equal iff descriptions equal", "min_covers": 2},
+        {"name": "c15_checked_from_type", "mod": "verif_kani_c15", "timeout": 300, "mem_gb": 6,
+         "encodes": ["CompoundType::checked_from_type (used by CompoundType::deserialize)", "CompoundType::from_type", "into_type"],
+         "symbolic": "any valid packed inner type (layers u32, len 0..=32, primitive), outer constructor",
+         "bound": "loop-free", "oracle": "None exactly for a container over a 32-layer type; otherwise equals from_type and is invertible", "min_covers": 3},
+        {"name": "c15_ctype_small", "mod": "verif_kani_c20k", "timeout": 900, "mem_gb": 10,
+         "encodes": ["wirefilter_create_primitive_type", "wirefilter_create_array_type", "wirefilter_create_map_type",
+                     "<Type as From<CType>>::from", "<CType as From<Type>>::from", "CType::push", "CType::pop"],
+         "symbolic": "primitive (4), <= 3 layers (layer string)", "bound": "<= 3 layers, unwind 6",
+         "oracle": "C type built layer by layer converts to the same engine type built the same way, and back", "min_covers": 2},
+        {"name": "c15_ctype_step", "mod": "verif_kani_c20k", "timeout": 300, "mem_gb": 6,
+         "encodes": ["CType::push", "CType::pop"], "symbolic": "any CType with len < 32 (layers u32), layer kind",
+         "bound": "loop-free", "oracle": "pop(push(x)) == x; same bit layout as CompoundType", "min_covers": 2},
     ],
     "not_covered": "the JSON form (serde), scheme JSON round trip, duplicate field names, and the behaviour of "
                    "JSON descriptors deeper than 32 layers (see known finding F3)",
@@ -140,6 +226,10 @@ PROPS["C13"] = {
          "encodes": ["FilterParser::with_increased_nesting", "FilterParser::with_settings"],
          "symbolic": "limit u16, d <= 9 nested constructs", "bound": "d <= 9, unwind 11",
          "oracle": "accepted iff d <= limit", "min_covers": 3},
+        {"name": "c13_nesting_chain_deep", "mod": "verif_kani_c13", "tier": "thorough", "core": False, "timeout": 2400, "mem_gb": 16,
+         "encodes": ["FilterParser::with_increased_nesting", "FilterParser::with_settings"],
+         "symbolic": "limit 0..=300, 300 nested constructs", "bound": "300 steps, unwind 303",
+         "oracle": "exactly `limit` constructs accepted before the first rejection", "min_covers": 3},
         {"name": "c13_settings_accessors", "mod": "verif_kani_c13", "timeout": 300, "mem_gb": 6,
          "encodes": ["ParserSettings::default", "regex_set/get_*", "wildcard_set/get_star_limit"],
          "symbolic": "three usize", "bound": "loop-free", "oracle": "getter(setter(x)) == x", "min_covers": 1},
@@ -200,13 +290,13 @@ PROPS["C05"] = {
          "encodes": ["lex::skip_space", "lex::span", "lex::expect", "lex::complete"],
          "symbolic": "<= 3 ASCII chars", "bound": "3 chars, unwind 6",
          "oracle": "strips exactly leading space/CR/LF; expect strips exactly its literal; complete accepts only empty rest", "min_covers": 3},
-        {"name": "c05_parse_error_n2", "mod": "verif_kani_c05_pe", "timeout": 900, "mem_gb": 16,
+        {"name": "c05_parse_error_n2", "mod": "verif_kani_c05_pe", "timeout": 1200, "mem_gb": 16, "rss_gb": 12,
          "encodes": ["ParseError::new"], "symbolic": "<= 2 chars over {LF, space, a}, span = any subslice", "bound": "2 chars, unwind 5",
          "oracle": "line = #LF before span; column = offset in that line; column range inside the line; never panics", "min_covers": 3},
-        {"name": "c05_parse_error_n3", "mod": "verif_kani_c05_pe", "tier": "thorough", "core": False, "timeout": 1800, "mem_gb": 28,
+        {"name": "c05_parse_error_n3", "mod": "verif_kani_c05_pe", "tier": "thorough", "core": False, "timeout": 1800, "mem_gb": 28, "rss_gb": 24,
          "encodes": ["ParseError::new"], "symbolic": "<= 3 chars over {LF, space, a}, any subslice", "bound": "3 chars, unwind 6",
          "oracle": "same", "min_covers": 3},
-        {"name": "c05_parse_error_n4", "mod": "verif_kani_c05_pe", "tier": "thorough", "core": False, "timeout": 2400, "mem_gb": 40,
+        {"name": "c05_parse_error_n4", "mod": "verif_kani_c05_pe", "tier": "thorough", "core": False, "timeout": 2400, "mem_gb": 40, "rss_gb": 36,
          "encodes": ["ParseError::new"], "symbolic": "<= 4 chars over {LF, space, a}, any subslice", "bound": "4 chars, unwind 7",
          "oracle": "same", "min_covers": 3},
     ],
@@ -293,8 +383,14 @@ PROPS["C11"] = {
     "crate": "engine",
     "modules": [
         {"mod": "verif_kani_c11", "host": "engine/src/rhs_types/wildcard.rs", "file": "engine/c11_wildcard.rs"},
+        {"mod": "verif_kani_cmp", "host": "engine/src/scheme.rs", "file": "engine/cmp_arms.rs"},
     ],
     "harnesses": [
+        {"name": "c11_wildcard_arms", "mod": "verif_kani_cmp", "big": True, "timeout": 1200, "mem_gb": 24, "rss_gb": 6,
+         "encodes": ["ComparisonExpr::compile_with_compiler (real match on the operator, comparator construction, nil default) with IndexExpr::compile_with stubbed by the harness continuation"],
+         "symbolic": "value <= 2 bytes, strict flag, pattern a*", "bound": "unwind 8", "oracle": "Wildcard arm folds ASCII case, StrictWildcard arm does not; absent: false", "min_covers": 3,
+         "stubs": ["IndexExpr::compile_with -> harness continuation applying the built comparator to a symbolic value", "rand::rngs::thread::rng -> unreachable"]},
+
         {"name": "c11_wildcard_ci_p1", "mod": "verif_kani_c11", "timeout": 1200, "mem_gb": 12,
          "encodes": ["Wildcard::<false>::new", "validate_wildcard", "has_double_star", "Wildcard::is_match", "wildcard::WildcardBuilder::build", "wildcard::Wildcard::is_match"],
          "symbolic": "pattern of exactly 1 bytes over {a,A,*,?,\\\\}, value <= 2 arbitrary bytes, star limit usize",
@@ -337,6 +433,7 @@ PROPS["C20"] = {
     "crate": "ffi",
     "modules": [
         {"mod": "verif_kani_c20", "host": "ffi/src/cstring.rs", "file": "ffi/c20_cstring.rs"},
+        {"mod": "verif_kani_c20k", "host": "ffi/src/lib.rs", "file": "ffi/c20_ffi_kernels.rs"},
     ],
     "harnesses": [
         {"name": "c20_cstring_step", "mod": "verif_kani_c20", "timeout": 900, "mem_gb": 10,
@@ -347,6 +444,237 @@ PROPS["C20"] = {
         {"name": "c20_cstring_clear", "mod": "verif_kani_c20", "timeout": 600, "mem_gb": 8,
          "encodes": ["CString::clear", "CString::new", "as_c_str"], "symbolic": "any valid state <= 3 bytes",
          "bound": "unwind 6", "oracle": "NULL iff empty; clear() empties", "min_covers": 1},
+        {"name": "c15_ctype_small", "mod": "verif_kani_c20k", "timeout": 900, "mem_gb": 10,
+         "encodes": ["wirefilter_create_primitive_type", "wirefilter_create_array_type", "wirefilter_create_map_type",
+                     "<Type as From<CType>>::from", "<CType as From<Type>>::from", "CType::push", "CType::pop"],
+         "symbolic": "primitive (4), <= 3 layers (layer string)", "bound": "<= 3 layers, unwind 6",
+         "oracle": "C type built layer by layer converts to the same engine type built the same way, and back", "min_covers": 2},
+        {"name": "c15_ctype_step", "mod": "verif_kani_c20k", "timeout": 300, "mem_gb": 6,
+         "encodes": ["CType::push", "CType::pop"], "symbolic": "any CType with len < 32 (layers u32), layer kind",
+         "bound": "loop-free", "oracle": "pop(push(x)) == x; same bit layout as CompoundType", "min_covers": 2},
     ],
     "not_covered": "equivalence of every wirefilter_* wrapper with the Rust API, last-error per thread, the panic status",
 }
+
+PROPS["C07"] = {
+    "crate": "engine",
+    "modules": [
+        {"mod": "verif_kani_c07", "host": "engine/src/ast/logical_expr.rs", "file": "engine/c07_tokens.rs"},
+        {"mod": "verif_kani_c20k", "host": "ffi/src/lib.rs", "file": "ffi/c20_ffi_kernels.rs", "crate": "ffi"},
+    ],
+    "harnesses": [
+        {"name": "c07_hash_streaming", "mod": "verif_kani_c20k", "timeout": 900, "mem_gb": 10,
+         "encodes": ["ffi::HasherWrite::write", "HasherWrite::write_all", "fnv::FnvHasher"],
+         "symbolic": "<= 5 bytes, cut point", "bound": "5 bytes, unwind 8",
+         "oracle": "hash(write(a); write(b)) == hash(write(a ++ b)); one-byte documents collide iff equal", "min_covers": 2},
+    ],
+    "not_covered": "whitespace/alias independence of whole filters, the JSON serialisation, same-operator flattening, "
+                   "manual Eq/Hash impls (AST and serde code are outside what CBMC decides here); the C-API hash is "
+                   "covered only for its chunk-independence (ffi kernel, see C20 run)",
+}
+
+PROPS["C02"] = {
+    "crate": "engine",
+    "modules": [
+        {"mod": "verif_kani_c02", "host": "engine/src/ast/logical_expr.rs", "file": "engine/c02_quantifier.rs"},
+    ],
+    "harnesses": [
+        {"name": "c02_quantifier_reduce", "mod": "verif_kani_c02", "timeout": 600, "mem_gb": 8,
+         "encodes": ["QuantifierOp::reduce_bool_iter"],
+         "symbolic": "<= 4 booleans + length", "bound": "4 elements, unwind 7",
+         "oracle": "any = some element true; all = every element true; all of empty is true", "min_covers": 3},
+    ],
+    "not_covered": "indexing, map-each, row-major flattening, element-wise not/and/or/xor and truncation, absent "
+                   "containers: all operate on LhsValue arrays/maps inside compiled closures (out of CBMC's reach, DESIGN 3.2)",
+}
+
+
+# ---------------------------------------------------------------------------
+# harnesses shared between properties (same harness function, same module)
+# ---------------------------------------------------------------------------
+def _find(name):
+    for p in PROPS.values():
+        for h in p["harnesses"]:
+            if h["name"] == name:
+                mod = [m for m in p["modules"] if m["mod"] == h["mod"]][0]
+                return h, mod, p["crate"]
+    raise KeyError(name)
+
+
+def _share(dst, name, front=False):
+    h, mod, crate = _find(name)
+    P = PROPS[dst]
+    if any(x["name"] == name for x in P["harnesses"]):
+        return
+    if not any(m["mod"] == mod["mod"] for m in P["modules"]):
+        m2 = dict(mod)
+        m2.setdefault("crate", crate)
+        P["modules"].append(m2)
+    if front:
+        P["harnesses"].insert(0, dict(h))
+    else:
+        P["harnesses"].append(dict(h))
+
+
+def _define(dst, mod, h):
+    """a harness that is first defined here (module dict + harness dict)"""
+    P = PROPS[dst]
+    if not any(m["mod"] == mod["mod"] for m in P["modules"]):
+        P["modules"].append(dict(mod))
+    P["harnesses"].append(h)
+
+
+_PARSE_MOD = {"mod": "verif_kani_parse", "host": "engine/src/scheme.rs", "file": "engine/parse_logic.rs"}
+_EXEC_MOD = {"mod": "verif_kani_exec", "host": "engine/src/scheme.rs", "file": "engine/exec_kernels.rs"}
+_PSTUB = ["Scheme::get -> one-letter names a..d are fields 0..3", "rhs_types::Regex::new -> unreachable"]
+_PENC = ["<LogicalExpr as LexWith>::lex_with", "LogicalExpr::lex_simple_expr", "lex_more_with_precedence",
+         "lex_combining_op", "<ComparisonExpr as LexWith>::lex_with", "lex_with_lhs", "<IndexExpr as LexWith>::lex_with",
+         "<IdentifierExpr as LexWith>::lex_with", "<Identifier as LexWith>::lex_with",
+         "FilterParser::with_increased_nesting"]
+
+_PENDING_C13_PARSE = (_PARSE_MOD, {
+    "name": "c13_parse_nesting_sites", "mod": "verif_kani_parse", "big": True, "timeout": 1500, "mem_gb": 24, "rss_gb": 8,
+    "encodes": _PENC, "symbolic": "nesting limit u16; text one of `!(!(a))`, `((a)) || !b`, `a && b`",
+    "bound": "fixed texts, unwind 6",
+    "oracle": "accepted iff nesting depth (4, 2, 0) <= limit; the error reports the limit", "min_covers": 4,
+    "stubs": _PSTUB})
+_define("C03", _EXEC_MOD, {
+    "name": "c03_optional_defaults", "mod": "verif_kani_exec", "big": True, "timeout": 1200, "mem_gb": 24, "rss_gb": 6,
+    "encodes": ["SimpleFunctionDefinition::compile (closure)", "ExactSizeChain", "arg_count"],
+    "symbolic": "defaults d0,d1 (i64), supplied values (3 x i64), number supplied 1..3",
+    "bound": "1 mandatory + 2 optional params, unwind 6",
+    "oracle": "implementation sees supplied values then the defaults of exactly the omitted parameters, in order",
+    "min_covers": 3, "stubs": ["implementation: harness function recording its arguments"]})
+
+_share("C05", "c13_nesting_step")
+_share("C01", "c13_parse_nesting_sites") if False else None
+
+
+# C10: the engine's own `contains` dispatch (compile arm), with the two counted
+# rewrites that make its environment symbolic
+PROPS["C10"]["rewrites"] = [
+    {"id": "R2", "file": "engine/src/ast/field_expr.rs", "find": "if *USE_AVX2 {", "count": 1,
+     "replace": "if crate::scheme::verif_kani_cmp::use_avx2() {"},
+    {"id": "R1", "file": "engine/src/ast/field_expr.rs", "find": "rng().random_range(", "count": 2,
+     "replace": "crate::scheme::verif_kani_cmp::nondet_range("},
+]
+_CMP_MOD = {"mod": "verif_kani_cmp", "host": "engine/src/scheme.rs", "file": "engine/cmp_arms.rs"}
+for _n, _t in ((0, "quick"), (2, "quick"), (3, "thorough")):
+    _h = {
+        "name": "c10_contains_dispatch_n%d" % _n, "mod": "verif_kani_cmp", "big": True, "timeout": 1800, "mem_gb": 24, "rss_gb": 8,
+        "encodes": ["ComparisonExpr::compile_with_compiler (Contains arm: length dispatch, slice_to_array, anchor range, "
+                    "ArraySearcher / EmptySearcher construction)", "sliceslice::x86::Avx2Searcher::with_position", "search_in"],
+        "symbolic": "pattern of %d arbitrary bytes, anchor anywhere in the range the source passes, value <= 4 bytes" % _n,
+        "bound": "pattern %d, value <= 4, unwind 8" % _n,
+        "oracle": "naive substring search; anchor within 1..len; absent value => false", "min_covers": 3,
+        "stubs": ["IndexExpr::compile_with -> harness continuation", "rand::rngs::thread::rng -> unreachable",
+                  "rewrite R2: `if *USE_AVX2 {` -> harness flag (true)", "rewrite R1: `rng().random_range(` -> symbolic value in the passed range"],
+    }
+    if _t == "thorough":
+        _h["tier"] = "thorough"
+        _h["core"] = False
+    _define("C10", _CMP_MOD, _h)
+
+PROPS["C12"] = {
+    "crate": "engine",
+    "modules": [
+        {"mod": "verif_kani_c12", "host": "engine/src/scheme.rs", "file": "engine/c12_walk.rs"},
+    ],
+    "harnesses": [
+        {"name": "c12_walk_logical_step", "mod": "verif_kani_c12", "big": True, "timeout": 1200, "mem_gb": 24, "rss_gb": 6,
+         "encodes": ["<LogicalExpr as Expr>::walk", "QuantifierArgExpr::walk"],
+         "symbolic": "node kind (comparison, parentheses, not, any(index), all(logical), 3-operand chain)",
+         "bound": "one walk step, unwind 5",
+         "oracle": "exactly the node's children are visited, in order, through the right visitor method", "min_covers": 3},
+        {"name": "c12_walk_value_step", "mod": "verif_kani_c12", "big": True, "timeout": 1200, "mem_gb": 24, "rss_gb": 6,
+         "encodes": ["<ComparisonExpr as Expr>::walk", "<IndexExpr as ValueExpr>::walk", "<FunctionCallExpr as ValueExpr>::walk",
+                     "<FunctionCallArgExpr as ValueExpr>::walk"],
+         "symbolic": "argument kind (index / literal / logical), literal value", "bound": "one walk step, 3 arguments, unwind 5",
+         "oracle": "comparison -> lhs; index -> field or call; call -> every argument in order, then the function; literal -> nothing",
+         "min_covers": 2},
+        {"name": "c12_uses_single_comparison", "mod": "verif_kani_c12", "big": True, "timeout": 1200, "mem_gb": 24, "rss_gb": 6,
+         "encodes": ["UsesVisitor (visit_expr, visit_value_expr, visit_field)", "UsesListVisitor::visit_comparison_expr",
+                     "LogicalExpr::walk", "ComparisonExpr::walk", "IndexExpr::walk", "FieldRef == Field"],
+         "symbolic": "queried field index, used field index (4x4), `in $list` or not", "bound": "one comparison node, unwind 5",
+         "oracle": "uses iff same field of the same scheme; uses_list iff additionally an `in $list` comparison", "min_covers": 3},
+    ],
+    "not_covered": "the composition of walk steps over whole trees (deep nesting, function arguments at depth), name "
+                   "resolution through the registry, unknown-name errors, FilterValueAst",
+}
+
+_define("C10", _CMP_MOD, {
+    "name": "c10_contains_dispatch_table", "mod": "verif_kani_cmp", "big": True, "timeout": 2400, "mem_gb": 24, "rss_gb": 10,
+    "encodes": ["ComparisonExpr::compile_with_compiler (Contains arm: all 15 length arms 2..=16, slice_to_array::<N>)",
+                "Avx2Searcher::<[u8; N]>::with_position / search_in (equal-length path)"],
+    "symbolic": "16 pattern bytes, anchor in the passed range, 'last byte differs' flag; lengths 2..=16 enumerated by unrolling",
+    "bound": "15 lengths, unwind 19",
+    "oracle": "pattern found in itself, not found in a copy whose last byte differs; anchor within 1..len", "min_covers": 2,
+    "stubs": ["IndexExpr::compile_with -> harness continuation", "rand::rngs::thread::rng -> unreachable",
+              "rewrite R2", "rewrite R1"]})
+_define("C09", _CMP_MOD, {
+    "name": "c09_oneof_bytes", "mod": "verif_kani_cmp", "big": True, "timeout": 1800, "mem_gb": 24, "rss_gb": 8,
+    "encodes": ["ComparisonExpr::compile_with_compiler (OneOf/Bytes arm: BTreeSet construction, Contains comparator)"],
+    "symbolic": "one 2-byte and one 1-byte item, probe <= 2 bytes", "bound": "2 items, unwind 8",
+    "oracle": "probe equals some listed byte string; absent => false", "min_covers": 3,
+    "stubs": ["IndexExpr::compile_with -> harness continuation", "rand::rngs::thread::rng -> unreachable"]})
+_define("C11", {"mod": "verif_kani_c11", "host": "engine/src/rhs_types/wildcard.rs", "file": "engine/c11_wildcard.rs"}, {
+    "name": "c11_wildcard_validate_p4", "mod": "verif_kani_c11", "timeout": 1200, "mem_gb": 12,
+    "encodes": ["Wildcard::<true>::new", "validate_wildcard", "has_double_star", "wildcard::WildcardBuilder::build"],
+    "symbolic": "pattern of exactly 4 bytes over {a,*,\\}, star limit usize", "bound": "pattern 4, unwind 8",
+    "oracle": "accepted iff escapes valid, no two adjacent unescaped stars, stars <= limit; error kind names the reason",
+    "min_covers": 4})
+_share("C11", "c13_nesting_step")
+
+_define("C17", {"mod": "verif_kani_c17", "host": "engine/src/list_matcher.rs", "file": "engine/c17_lists.rs"}, {
+    "name": "c17_list_name_lex", "mod": "verif_kani_c17", "timeout": 1500, "mem_gb": 20, "rss_gb": 12,
+    "encodes": ["<ListName as Lex>::lex"], "symbolic": "`$` + <= 2 ASCII characters", "bound": "3 chars, unwind 5",
+    "oracle": "name = longest run of a-z 0-9 _ . ; rejected if empty or starting/ending with a dot; rest untouched",
+    "min_covers": 4})
+
+_C06_MOD = {"mod": "verif_kani_c06", "host": "engine/src/rhs_types/bytes.rs", "file": "engine/c06_bytes.rs"}
+_define("C06", _C06_MOD, {
+    "name": "c06_int_range_rule", "mod": "verif_kani_c06", "timeout": 900, "mem_gb": 12,
+    "encodes": ["<IntRange as Lex>::lex"], "symbolic": "both bound values (full i64), single value vs a..b",
+    "bound": "fixed text, unwind 5", "oracle": "accepted iff a <= b, denotes a..=b; single value v..=v; consumes exactly the literal",
+    "min_covers": 4, "stubs": ["<i64 as Lex>::lex -> consumes one character, returns an arbitrary i64"]})
+_define("C06", _C06_MOD, {
+    "name": "c06_index_literal_rule", "mod": "verif_kani_c06", "timeout": 900, "mem_gb": 12,
+    "encodes": ["<FieldIndex as Lex>::lex", "<RhsValue as LexWith<Type>>::lex_with (Int arm)"],
+    "symbolic": "index value (full i64)", "bound": "fixed text, unwind 5",
+    "oracle": "accepted iff 0 <= n <= 2^32-1, denotes n", "min_covers": 4,
+    "stubs": ["<i64 as Lex>::lex -> consumes one character, returns an arbitrary i64"]})
+_define("C06", {"mod": "verif_kani_c09_ip", "host": "engine/src/rhs_types/ip.rs", "file": "engine/c09_ip.rs"}, {
+    "name": "c06_ip_range_rule", "mod": "verif_kani_c09_ip", "timeout": 900, "mem_gb": 12,
+    "encodes": ["<IpRange as Lex>::lex (explicit range branch)", "match_addr_or_cidr"],
+    "symbolic": "both bounds (family + u128)", "bound": "fixed text, unwind 8",
+    "oracle": "accepted iff same family and first <= last; bounds preserved", "min_covers": 4,
+    "stubs": ["rhs_types::ip::parse_addr -> arbitrary address"]})
+_share("C09", "c06_ip_range_rule")
+_share("C06", "c09_cidr_v4_bounds")
+_share("C06", "c09_cidr_v6_bounds")
+
+_C20K = {"mod": "verif_kani_c20k", "host": "ffi/src/lib.rs", "file": "ffi/c20_ffi_kernels.rs"}
+_define("C20", _C20K, {
+    "name": "c20_result_constants", "mod": "verif_kani_c20k", "timeout": 300, "mem_gb": 8,
+    "encodes": ["MatchingResult::{PANIC,ERROR}", "UsingResult::ERROR", "Status discriminants"],
+    "symbolic": "none (constant table)", "bound": "loop-free",
+    "oracle": "match panic -> Status::Panic; errors -> Status::Error; Success == 0", "min_covers": 1})
+_define("C20", _C20K, {
+    "name": "c20_last_error_replaced", "mod": "verif_kani_c20k", "timeout": 1500, "mem_gb": 16, "rss_gb": 8,
+    "encodes": ["write_last_error!", "LAST_ERROR thread-local", "wirefilter_get_last_error", "wirefilter_clear_last_error",
+                "CString::clear / fmt::Write"],
+    "symbolic": "two 2-byte ASCII messages", "bound": "2 writes, unwind 8",
+    "oracle": "after two failures the buffer holds exactly the second message (NUL -> 0x1A), NUL-terminated; clear -> NULL",
+    "min_covers": 2})
+
+_C07_MOD = {"mod": "verif_kani_c07", "host": "engine/src/ast/logical_expr.rs", "file": "engine/c07_tokens.rs"}
+_define("C07", _C07_MOD, {
+    "name": "c07_alias_tables", "mod": "verif_kani_c07", "timeout": 900, "mem_gb": 12,
+    "encodes": ["<LogicalOp as Lex>::lex", "<UnaryOp as Lex>::lex", "<QuantifierOp as Lex>::lex", "<OrderingOp as Lex>::lex",
+                "<IntOp as Lex>::lex", "<BytesOp as Lex>::lex", "<ComparisonOp as Lex>::lex (lex_enum! tables)"],
+    "symbolic": "none (constant table of 31 concrete token texts; symbolic token text is out of reach, DESIGN 3.2 e)",
+    "bound": "tokens <= 15 chars, unwind 18",
+    "oracle": "every alias lexes to its operator, both aliases of a pair to the same one, exactly the alias consumed",
+    "min_covers": 1})
+_share("C01", "c07_alias_tables")
+_share("C07", "c01_precedence_order")
